@@ -194,6 +194,9 @@ pub enum Step {
     /// its caller (an application-level timeout around the call, no `with_timeout`) while the request is
     /// still queued behind another handle's stuck write: the driver finds it stale when it gets there
     GivenUpBeforeTheDriverSawIt(u8),
+    /// a single operation whose future is dropped by its caller (application-level timeout, no `with_timeout`)
+    /// after the request went out; the server's answer arrives later (ms) and finds nobody
+    DroppedAfterItWasSent(u64),
     AbandonFinished,
     AbandonTimedOut,
     AbandonInflight,
@@ -227,6 +230,7 @@ impl Step {
             Step::GivenUpBeforeTheDriverSawIt(0) => "single-op-dropped-by-its-caller-before-the-driver-saw-the-request",
             Step::GivenUpBeforeTheDriverSawIt(1) => "stream-start-dropped-by-its-caller-before-the-driver-saw-the-request",
             Step::GivenUpBeforeTheDriverSawIt(_) => "search()-dropped-by-its-caller-before-the-driver-saw-the-request",
+            Step::DroppedAfterItWasSent(_) => "single-op-dropped-by-its-caller-after-the-request-went-out",
             Step::AbandonFinished => "abandon-of-finished-op",
             Step::AbandonTimedOut => "abandon-of-timed-out-op",
             Step::AbandonInflight => "abandon-of-inflight-op",
@@ -238,7 +242,8 @@ impl Step {
 }
 
 pub fn gen_step(rng: &mut Rng) -> Step {
-    match rng.below(17) {
+    match rng.below(18) {
+        17 => Step::DroppedAfterItWasSent(*rng.pick(&[60u64, 200, 700])),
         16 => Step::GivenUpBeforeTheDriverSawIt(rng.below(3) as u8),
         15 => Step::TimeoutBehindStalledWrite(*rng.pick(&[0u64, 20, 50, 99, 100, 150, 299])),
         14 => Step::TimeoutWhileWriteStalled(rng.below(3) as u8, rng.bool()),
@@ -444,6 +449,11 @@ pub async fn run_step(ldap: &mut Ldap, other: &mut Ldap, step: &Step, tok: u64, 
             if bo != "Ok" {
                 obs.outcome = format!("HUNG-or-failed:{}", obs.outcome);
             }
+        }
+        Step::DroppedAfterItWasSent(late) => {
+            let mut l2 = ldap.clone();
+            let gave_up = tokio::time::timeout(Duration::from_millis(50), invoke(&mut l2, &Call::Delete { dn: format!("op={},b=late{}", tok, late) })).await.is_err();
+            obs.outcome = format!("gave-up={}", gave_up);
         }
         Step::AbandonInflightZeroTimeout => {
             let mut l2 = ldap.clone();
